@@ -5,6 +5,7 @@ import (
 	"fmt"
 	"math/rand"
 	"runtime"
+	"strings"
 	"sync"
 	"sync/atomic"
 
@@ -76,7 +77,7 @@ func (s *session) publish(recent []*statehist.State) {
 // regardless of liveness: no reader of root R may ever return data of another state.
 func (s *session) wrong(kind string, st *statehist.State, key string, got, want []byte) {
 	// (called from reader goroutines: must not touch the writer's op log / model)
-	s.d.viol("C16:wrong-value:"+kind+":concurrent", fmt.Sprintf("%s %s read concurrently at state %d: got %x want %x", kind, key, st.ID, got, want), map[string]any{"config": s.d.cfg, "root": st.Root.Hex(), "key": key, "epoch": s.epoch.Load()})
+	s.d.viol("wrong-value:"+kind+":concurrent", fmt.Sprintf("%s %s read concurrently at state %d: got %x want %x", kind, key, st.ID, got, want), map[string]any{"config": s.d.cfg, "root": st.Root.Hex(), "key": key, "epoch": s.epoch.Load()})
 }
 
 func (s *session) reader(id int, rng *rand.Rand, out *[]rec) {
@@ -221,13 +222,13 @@ func (s *session) classify(recs []rec) (overlapOp, overlapFlatten int) {
 		}
 		if r.srErr || r.nrErr {
 			if liveAll {
-				d.viol("C16:availability:live-root-unreadable:concurrent", fmt.Sprintf("state %d was live during the whole interval (ops %d..%d) but StateReader/NodeReader failed (%v/%v)", r.st.ID, lo, hi, r.srErr, r.nrErr), w())
+				d.viol("availability:live-root-unreadable:concurrent", fmt.Sprintf("state %d was live during the whole interval (ops %d..%d) but StateReader/NodeReader failed (%v/%v)", r.st.ID, lo, hi, r.srErr, r.nrErr), w())
 			}
 			d.r.Count("conc_reader_unavailable", 1)
 			continue
 		}
 		if deadAll && r.retainedIt == 0 {
-			d.viol("C16:availability:dropped-root-readable:concurrent", fmt.Sprintf("state %d was not live during the whole interval (ops %d..%d) but readers were handed out", r.st.ID, lo, hi), w())
+			d.viol("availability:dropped-root-readable:concurrent", fmt.Sprintf("state %d was not live during the whole interval (ops %d..%d) but readers were handed out", r.st.ID, lo, hi), w())
 			continue
 		}
 		d.r.Count("conc_reads", r.reads)
@@ -235,22 +236,22 @@ func (s *session) classify(recs []rec) (overlapOp, overlapFlatten int) {
 		// was flattened in the interval
 		strict := diffAll || (liveAll && noFlatten)
 		if r.flatErrs > 0 {
-			if strict && anyStale {
+			if strict && anyStale && strings.Contains(r.firstErr, "layer stale") {
 				d.viol(fpSibling, fmt.Sprintf("flat read at live state %d failed (concurrent session, stale fallback through a stale parent link): %s", r.st.ID, r.firstErr), w())
 				d.r.Count("sibling_of_flattened_flat_read_errors", r.flatErrs)
 			} else if strict {
-				d.viol("C16:read-error:flat:concurrent", fmt.Sprintf("flat read at state %d failed although the root stayed live (diffAll=%v noFlatten=%v, ops %d..%d): %s", r.st.ID, diffAll, noFlatten, lo, hi, r.firstErr), w())
+				d.viol("read-error:flat:concurrent", fmt.Sprintf("flat read at state %d failed although the root stayed live (diffAll=%v noFlatten=%v, ops %d..%d): %s", r.st.ID, diffAll, noFlatten, lo, hi, r.firstErr), w())
 			} else {
 				d.r.Count("conc_stale_errors_tolerated", r.flatErrs)
 			}
 		}
 		if r.nodeErrs > 0 {
 			switch {
-			case strict && anyStale:
+			case strict && anyStale && strings.Contains(r.firstErr, "layer stale"):
 				d.viol(fpSibling, fmt.Sprintf("node read at live state %d failed (concurrent session): %s", r.st.ID, r.firstErr), w())
 				d.r.Count("sibling_of_flattened_node_read_errors", r.nodeErrs)
 			case strict:
-				d.viol("C16:read-error:node:concurrent", fmt.Sprintf("node read at state %d failed although the root stayed live (diffAll=%v noFlatten=%v, ops %d..%d): %s", r.st.ID, diffAll, noFlatten, lo, hi, r.firstErr), w())
+				d.viol("read-error:node:concurrent", fmt.Sprintf("node read at state %d failed although the root stayed live (diffAll=%v noFlatten=%v, ops %d..%d): %s", r.st.ID, diffAll, noFlatten, lo, hi, r.firstErr), w())
 			default:
 				d.r.Count("conc_stale_errors_tolerated", r.nodeErrs)
 			}
@@ -403,7 +404,7 @@ func concurrentPhase(r *vrt.Run) {
 	idx := 0
 	for _, g := range groups {
 		pathdb.VerifSetMaxDiffLayers(g.max)
-		runtime.GOMAXPROCS(g.procs)
+		runtime.GOMAXPROCS(min(g.procs, max(old, 2))) // never above the limit given by the environment
 		base := idx
 		vrt.Par(per, 4, func(i int) { concurrentSession(r, base+i, g.max, readers) })
 		idx += per
